@@ -44,6 +44,10 @@ var vC03Catalogue = []vDelimPattern{
 	/*25*/ {toks: []vTok{vL("/"), vStarTok, vL("/ab/"), vN("k"), vL("/ab")}, lens: []int{9, 10, 11}},
 	/*26*/ {toks: []vTok{vL("/f/"), vPlusTok, vL("-me-"), vN("k"), vL("-me-"), vO("z")}, lens: []int{13, 14}},
 	/*27*/ {toks: []vTok{vL("/"), vStarTok, vL("/to/"), vN("k"), vL("/to/end")}, lens: []int{13, 14}},
+	// two greedy parameters, the literal after the first recurs behind the second
+	/*28*/ {toks: []vTok{vL("/"), vStarTok, vL("-"), vStarTok, vL("-a")}, lens: []int{4, 5, 6}},
+	/*29*/ {toks: []vTok{vL("/f/"), vStarTok, vL("/raw/"), vPlusTok, vL("/raw")}, lens: []int{13, 14}},
+	/*30*/ {toks: []vTok{vL("/"), vPlusTok, vL(".d."), vPlusTok, vL(".d")}, lens: []int{8, 9}},
 }
 
 func (p *vDelimPattern) text() string {
